@@ -165,6 +165,14 @@ func cmdCheck(args []string) int {
 	defer sv.cleanup()
 	sv.agree = *tier == "thorough"
 	for _, u := range units {
+		if *prop != "" && !contains(u.Block.Props, *prop) && u.Block.PropKinds[*prop] == nil {
+			// a unit pulled in because its contract was used: what callers
+			// relied on is its postcondition, not its own run-time safety
+			if u.Block.PropKinds == nil {
+				u.Block.PropKinds = map[string][]string{}
+			}
+			u.Block.PropKinds[*prop] = []string{"post", "pre@call", "inv-init", "inv-step", "terminates", "rec-decreases", "callsite", "unit"}
+		}
 		if kinds := u.Block.PropKinds[*prop]; kinds != nil {
 			var kept []*Obligation
 			for _, o := range u.Ctx.obls {
